@@ -77,7 +77,9 @@ func c06Alphabet() (full []xletter, core []xletter, errcore []xletter) {
 		xl("Oversized", "oversized", "", "", oversizedMsg()), xl("UnknownType", "unknown", "", "", pgproto.Msg('z', nil)),
 	}
 	xCloseCore = []xletter{P("", progRows, "rows"), B("", ""), CS(""), CP(""), E(""), DS(""), sync,
-		P("s", progRows, "rows"), B("p", "s"), CS("s"), CP("p"), E("p"), DP("p")}
+		P("s", progRows, "rows"), B("p", "s"), CS("s"), CP("p"), E("p"), DP("p"),
+		// more than an allocation granule (4 KiB) of traffic: names defined before it must still resolve afterwards
+		P("", progRowsPadded, "rows+4100 blanks")}
 	core = full[:16]
 	errcore = []xletter{full[0], full[9], full[1], full[10], full[2], full[12], full[13], full[3]}
 	// errcore: Parse ok, Parse #perr, Bind ok, Bind u, Execute ok, Parse failing(unnamed), Flush, Sync
@@ -86,6 +88,8 @@ func c06Alphabet() (full []xletter, core []xletter, errcore []xletter) {
 
 // xCloseCore: names that are closed and then used again (filled by c06Alphabet).
 var xCloseCore []xletter
+
+var progRowsPadded = progRows + strings.Repeat(" ", 4100)
 
 func xletterByName(ls []xletter, name string) xletter {
 	for _, l := range ls {
@@ -110,6 +114,8 @@ func progLabel(p string) string {
 	switch p {
 	case "":
 		return "-"
+	case progRowsPadded:
+		return "rows+pad"
 	case progRows:
 		return "rows"
 	case progNoCols:
@@ -243,8 +249,8 @@ func (s xstate) step(l xletter) []xbranch {
 		}
 		prog := s.portal[pi]
 		switch prog {
-		case progRows:
-			return []xbranch{{reply: "DC", cbs: []string{"stmt:" + prog}, next: s}}
+		case progRows, progRowsPadded:
+			return []xbranch{{reply: "DC", cbs: []string{"stmt:" + strings.TrimSpace(prog)}, next: s}}
 		case progNoCols:
 			return []xbranch{{reply: "C", cbs: []string{"stmt:" + prog}, next: s}}
 		case progFail, progEOF:
